@@ -12,3 +12,7 @@ from . import c01
 
 def run(ctx):
     c01.run_mode(ctx, "C02")
+
+
+def replay(ctx, rec):
+    return c01.replay_mode(ctx, rec, "C02")
